@@ -290,7 +290,7 @@ Ltac inv2 :=
     | apply BI_fmap; [solve_keep|assumption]
     | apply BI_updSess; [|assumption]; intros ? ? (? & ? & ? & ? & ?); apply Bs_update'; cbn [s_key s_nick s_user ss_user_real];
         [assumption|assumption|assumption|
-         match goal with |- slen (stake ?n ?u) <= _ => pose proof (slen_stake n u); unfold max_user_len in *; lia end]
+         match goal with |- slen (cap_user ?u) <= _ => pose proof (slen_cap_user u); unfold max_user_len in *; lia end]
     | apply BI_insert; [|assumption];
         match goal with HJ : BI _ ?sv, H : sv_sessions ?sv !! ?k0 = Some _ |- Bs (fst ?k0, _) _ =>
           split; [exact (proj1 (b_sess _ _ HJ _ _ H))|] end;
